@@ -17,6 +17,8 @@ EXPLANATION = (
     "written in place, by any entry point. (R18.2) MAB.arms references a fresh copy. (R18.3) the isinstance "
     "alternatives accepted by the validators equal the ones handled by the converters, every converter chain "
     "ends in raise, and every converter return is identity-on-C-contiguous / .values / np.asarray(order='C'). "
+    "(R18.4) no converter / validator branch reads an attribute its implementor cannot have. Estimators built "
+    "with copy=False / copy_x=False are modelled as writing into their operand. "
     "Decides 'no caller object can be mutated' and 'no accepted container type is left unconverted'; value "
     "equality across container types is numerical and not decided.")
 ASSUMPTIONS = [
@@ -91,6 +93,25 @@ def check(ctx):
         ctx.ok("R18.1", "%s.%s may alias caller data and is only ever rebound" % (ocls, fld), ev.node, ev.fn)
     ctx.ok("R18.1", "no store event targets a caller-owned object (%d store events, %d runs)" %
            (n_events, len(traces)), construct="all entries", where="mabwiser/")
+    # R18.4: a converter / validator branch taken for one container type must be able to run for every policy
+    ctx.rule("R18.4", "no container-specific branch of the facade's converters and validators reads an attribute the "
+                      "implementor cannot have")
+    n_conv = 0
+    for c, label, root, w in traces:
+        for ev, anc in walk(root):
+            if ev.kind == "call" and ev.a["callee"].cls is not None and ev.a["callee"].cls.name == "MAB" and (
+                    "convert" in ev.a["callee"].name or "validate" in ev.a["callee"].name):
+                n_conv += 1
+            if ev.kind != "missing-attr" or ev.fn is None or ev.fn.cls is None or ev.fn.cls.name != "MAB" or not (
+                    "convert" in ev.fn.name or "validate" in ev.fn.name):
+                continue
+            branch = [" ".join(ast.unparse(g.node).split()) for g in ev.guards if g.fn is ev.fn and g.polarity and
+                      "isinstance" in ast.unparse(g.node)]
+            ctx.violate("R18.4", "%s reads .%s of an implementor that has no such attribute" %
+                        (ev.fn.qualname, ev.a["name"]), ev.node, ev.fn,
+                        "%s has no attribute `%s` (AttributeError) on the branch %s: the same data in another "
+                        "container is accepted [%s %s]" % (ev.a["cls"], ev.a["name"], branch[-1:] or "?", c.name, label))
+    ctx.floor("R18.4", "converter / validator calls on traces", n_conv, 500)
     ctx.floor("R18.1", "store events examined", n_events, 3000)
     ctx.floor("R18.1", "bandit fields aliasing caller data", len(aliased_fields), 8)
     _type_tables(ctx)
